@@ -871,7 +871,7 @@ func (fr *Frame) enterLoop(li *loopInfo, ins []edgeIn) {
 		}
 		vc.assume(fr.reach, t)
 	}
-	if len(invs) > 0 {
+	if len(invs) > 0 && fr.top {
 		vc.cover(fmt.Sprintf("%s/loop%d.cover", relFuncName(fr.fn), li.ordinal), fr.pos(b.Instrs[0].Pos()), fr.reach, invs[0].Props)
 	}
 }
